@@ -1,11 +1,12 @@
 // Stream binary for property C02 (what csvq writes reads back as the same table).
 //
 // One run produces four streams:
-//   enc  model-encode = real-encode: query.EncodeView on a constructed View, bytes compared with the Lean writer model
-//   dec  model-decode = real-decode on ARBITRARY bytes through the real loader (SELECT * FROM file), plus
-//        rectangularity of the real result
-//   rt   the write-then-read law on the real code alone, all six formats / encodings / line breaks / options
-//   dia  an UPDATE + COMMIT through the real processor keeps the dialect of the file
+//
+//	enc  model-encode = real-encode: query.EncodeView on a constructed View, bytes compared with the Lean writer model
+//	dec  model-decode = real-decode on ARBITRARY bytes through the real loader (SELECT * FROM file), plus
+//	     rectangularity of the real result
+//	rt   the write-then-read law on the real code alone, all six formats / encodings / line breaks / options
+//	dia  an UPDATE + COMMIT through the real processor keeps the dialect of the file
 package main
 
 import (
@@ -43,7 +44,7 @@ func hexTok(b []byte) string {
 
 // law records a failed law; at most lawCap full records per law name (the rest are only counted),
 // so that every distinct law name reaches the orchestrator
-const lawCap = 4
+const lawCap = 1
 
 var lawSeen = map[string]int{}
 
